@@ -5,6 +5,9 @@ package multicidrset
 import (
 	"net"
 	"sort"
+
+	"github.com/prometheus/client_golang/prometheus"
+	dto "github.com/prometheus/client_model/go"
 )
 
 // Read-only test hooks for the verification harness under /verif.
@@ -40,4 +43,23 @@ func (s *MultiCIDRSet) VerifState() (int, int, int, []string) {
 // VerifGetMaxCIDRs exposes getMaxCIDRs.
 func VerifGetMaxCIDRs(subNetMaskSize, clusterMaskSize int) int {
 	return getMaxCIDRs(subNetMaskSize, clusterMaskSize)
+}
+
+// VerifMetricValues reads the four pool series of one label straight from the metric vectors.
+func VerifMetricValues(label string) (allocs, releases, maxCIDRs, usage float64) {
+	read := func(m prometheus.Metric) float64 {
+		var d dto.Metric
+		if err := m.Write(&d); err != nil {
+			return -1
+		}
+		if d.Counter != nil {
+			return d.Counter.GetValue()
+		}
+		if d.Gauge != nil {
+			return d.Gauge.GetValue()
+		}
+		return -1
+	}
+	return read(cidrSetAllocations.WithLabelValues(label)), read(cidrSetReleases.WithLabelValues(label)),
+		read(cidrSetMaxCidrs.WithLabelValues(label)), read(cidrSetUsage.WithLabelValues(label))
 }
